@@ -70,6 +70,8 @@ for _p in ('C02','C03','C05','C06','C15','C18'):
     declared[_p]=declared.get(_p,set())|PARSE_LEAVES
 for _p in ('C03','C04','C06','C15'):
     declared[_p]=declared.get(_p,set())|FORMAT_LEAVES
+declared['C12']=declared.get('C12',set())|E('Time.eq_interval_dt','Time.partial_cmp_interval_dt','IntervalDT.eq_time','IntervalDT.partial_cmp_time')
+declared['C17']=declared.get('C17',set())|E('Timestamp.eq_date','Timestamp.partial_cmp_date','Timestamp.eq_oracle_date','OracleDate.eq_timestamp','Date.eq_oracle_date','OracleDate.eq_date')
 tie={}
 for i in range(1,20):
     pid='C%02d'%i
